@@ -508,7 +508,9 @@ class G:
             f.update(sid=0 if r.random() < 0.5 else stream_sid(), len=r.choice([4, 4, 4, 4, 3, 5]), inc=r.choice([1, 5, 100, 0, -1, 2147483647]))
         elif typ == 10:
             olen = r.choice([1, 1, 9, 0])
-            f.update(sid=0 if r.random() < 0.5 else stream_sid(), len=r.choice([5, 5, 5, 1, 0]), olen=olen, org='o', fld='h2')
+            f.update(sid=0 if r.random() < 0.5 else stream_sid(), len=r.choice([5, 5, 5, 1, 0]), olen=olen,
+                     # (the payload is the same five octets either way; org / fld say how the declared origin length cuts them)
+                     org='o' if olen else '', fld='h2' if olen else 'oh2')
         else:
             f.update(fl=r.choice([0, 5]), sid=r.choice([0, 1, 7]), len=r.choice([0, 3]))
         return f
